@@ -94,12 +94,17 @@ Termination == <>(mg # <<>> \/ Terminated(st))
 \* PathSet selects the configurations: 1 -> 2 workers x 3 jobs, every fail set (1-D cache);
 \*                                     2 -> 2 workers, 9 jobs in 3 split pieces of 3 (2-D cache), chosen fail sets
 \*                                     3 -> 3 workers x 4 jobs (simulation only)
-\*                                     4 -> 1-2 workers x 2 jobs, every fail set;  5 -> as 1 with three fail sets (quick tier)
+\*                                     4 -> 1-2 workers x 2 jobs, every fail set;  5 -> as 1 with three fail sets
+\*                                     6 -> 2 and 3 together (simulation);  7 -> 5 and 4 together (quick tier: one TLC run each)
 PC(nw, nj, sp, th, fl) == [nw |-> nw, nj |-> nj, cap |-> nw, split |-> sp, this |-> th, fail |-> fl, die |-> FALSE]
 PathConfigs ==
    CASE PathSet = 1 -> {PC(2, 3, 1, 0, fl) : fl \in SUBSET (0..2)}
      [] PathSet = 2 -> {PC(2, 9, 3, th, fl) : th \in 0..2, fl \in {{}, {4}, {0, 8}}}
      [] PathSet = 3 -> {PC(3, 4, 1, 0, fl) : fl \in SUBSET (0..3)} \cup {PC(3, 9, 3, th, fl) : th \in 0..2, fl \in {{}, {3}, {2, 7}}}
+     [] PathSet = 6 -> {PC(2, 9, 3, th, fl) : th \in 0..2, fl \in {{}, {4}, {0, 8}}}
+                       \cup {PC(3, 4, 1, 0, fl) : fl \in SUBSET (0..3)} \cup {PC(3, 9, 3, th, fl) : th \in 0..2, fl \in {{}, {3}, {2, 7}}}
+     [] PathSet = 7 -> {PC(2, 3, 1, 0, fl) : fl \in {{}, {1}, {0, 2}}}
+                       \cup {PC(1, 2, 1, 0, fl) : fl \in SUBSET (0..1)} \cup {PC(2, 2, 1, 0, fl) : fl \in SUBSET (0..1)}
      [] PathSet = 5 -> {PC(2, 3, 1, 0, fl) : fl \in {{}, {1}, {0, 2}}}
      [] PathSet = 4 -> {PC(1, 2, 1, 0, fl) : fl \in SUBSET (0..1)} \cup {PC(2, 2, 1, 0, fl) : fl \in SUBSET (0..1)}
      [] OTHER -> {}
